@@ -509,12 +509,13 @@ def install (T : Tables) (i : InstallFn) (inps : List UpdInput) (root : Option P
 
 /-! ## the read path -/
 
-inductive GetKind | keyed | prefixed | whole
+/-- `keyed`: `content[key]` (for beam stopping / population the file *is* the rate: the key is empty);
+`prefixed`: beam CX returns every metastable stored under the transition -/
+inductive GetKind | keyed | prefixed
   deriving DecidableEq, Repr, Inhabited
 
 def UpdFn.getKind : UpdFn → GetKind
   | .beamCx => .prefixed
-  | .beamStopping | .beamPopulation => .whole
   | _ => .keyed
 
 /-- number of arguments that select the file -/
@@ -550,7 +551,6 @@ def get (T : Tables) (g : GetFn) (args : List Arg) (root : Option Path) (fs : FS
         match file.filter (fun kv => kv.1.head? == (ikeyOf inner).head?) with
         | [] => .error .runtimeError
         | l => .ok l
-      | .whole => .ok file
 
 /-! ## well-formedness of the generated tables (decidable; `Props/C06Table.lean` proves it of `Gen.RepoPaths`) -/
 
